@@ -1303,6 +1303,12 @@ def _drop(ctx, f, e, side):
             return -hi
         if side == "start" and e.slice.upper is None and isinstance(lo, int) and lo >= 0:
             return lo
+    if side == "start" and isinstance(e, ast.Subscript) and isinstance(e.slice, ast.Slice) and e.slice.upper is None and e.slice.step is None \
+            and isinstance(e.slice.lower, ast.Call) and isinstance(e.slice.lower.func, ast.Attribute) and e.slice.lower.func.attr == "end" and not e.slice.lower.args:
+        # next[m.end():] with m = PATTERN.match(next): what the pattern matches at the start of the line is dropped
+        pat = _match_pattern(ctx, f, e.slice.lower.func.value, e.value)
+        if pat is not None:
+            return _regex_prefix_length(pat)
     if isinstance(e, ast.Call) and isinstance(e.func, ast.Attribute) and e.args:
         v = try_const(ctx, f, e.args[0])
         if isinstance(v, str) and ((side == "end" and e.func.attr == "removesuffix") or (side == "start" and e.func.attr == "removeprefix")):
@@ -1310,6 +1316,83 @@ def _drop(ctx, f, e, side):
         if isinstance(v, str) and ((side == "end" and e.func.attr in ("rstrip", "strip")) or (side == "start" and e.func.attr in ("lstrip", "strip"))):
             return f"every trailing/leading character in {v!r}"      # a run of any length, not a fixed count
     return None
+
+
+def regex_of(ctx, f, e) -> Optional[str]:
+    """the constant pattern text of a compiled-pattern expression (a name bound to re.compile(P), locally or at module level)
+    or of a pattern argument"""
+    v = try_const(ctx, f, e)
+    if isinstance(v, str):
+        return v
+    if isinstance(e, ast.Call) and norm(e.func) in ("re.compile", "compile") and e.args:
+        v = try_const(ctx, f, e.args[0])
+        return v if isinstance(v, str) else None
+    if isinstance(e, ast.Name):
+        d = single_def(f.node, e.id)
+        if d is not None:
+            return regex_of(ctx, f, d)
+        r = ctx.repo.resolve(f.module, e.id)
+        if r and r[0] == "const":
+            val = r[1].assigns.get(r[2])
+            if isinstance(val, ast.Call) and norm(val.func) in ("re.compile", "compile") and val.args:
+                try:
+                    from ..model import ConstEval
+                    v = ConstEval(ctx.repo, r[1]).eval(val.args[0], {})
+                except Exception:
+                    v = None
+                return v if isinstance(v, str) else None
+    return None
+
+
+def _match_pattern(ctx, f, m_expr, subject) -> Optional[str]:
+    """pattern text if m_expr is (a name bound to) `P.match(subject)` / `re.match(P, subject)`"""
+    call = m_expr
+    if isinstance(m_expr, ast.Name):
+        defs = [d for d in assigned_names(f.node).get(m_expr.id, []) if isinstance(d, (ast.Assign, ast.NamedExpr, ast.AnnAssign))]
+        if len(defs) != 1:
+            return None
+        call = defs[0].value
+    if not (isinstance(call, ast.Call) and isinstance(call.func, ast.Attribute) and call.func.attr == "match"):
+        return None
+    if norm(call.func.value) == "re" and len(call.args) >= 2:
+        pat, subj = regex_of(ctx, f, call.args[0]), call.args[1]
+    elif call.args:
+        pat, subj = regex_of(ctx, f, call.func.value), call.args[0]
+    else:
+        return None
+    if pat is None or norm(subj) != norm(subject):
+        return None
+    return pat
+
+
+def _regex_prefix_length(pat: str):
+    """number of characters a match of `pat` covers if that is the same for every match; a description (str) if the pattern
+    ends in an open-ended run; None if neither"""
+    import re._parser as sp
+    from re._constants import LITERAL, MAX_REPEAT, MIN_REPEAT, IN, CATEGORY, AT, MAXREPEAT
+    try:
+        items = list(sp.parse(pat))
+    except Exception:
+        return None
+    n = 0
+    for i, (op, av) in enumerate(items):
+        if op is AT:
+            continue
+        if op is LITERAL:
+            n += 1
+            continue
+        if op is IN and len(av) == 1 and av[0][0] is LITERAL:
+            n += 1
+            continue
+        if op in (MAX_REPEAT, MIN_REPEAT):
+            lo, hi, sub = av
+            if lo == hi and len(sub) == 1 and sub[0][0] is LITERAL:
+                n += lo
+                continue
+            if i == len(items) - 1 and hi == MAXREPEAT:
+                return f"the first {n} characters and every character after them that matches `{pat[pat.rfind(chr(92)) if chr(92) in pat[-4:] else -2:]}` (a run of any length)"
+        return None
+    return n
 
 
 def splice_model(ctx):
@@ -1349,6 +1432,29 @@ def splice_model(ctx):
             raise AnalysisError(f"{other[0].fq} seems to test line endings in a form this analysis does not read")
     ctx.cache["splice_model"] = found
     return found
+
+
+@rule("R-SPLICE")
+def r_splice(ctx) -> RuleResult:
+    res = RuleResult("R-SPLICE", "V3000 continuation lines: the splice drops exactly the continuation character of the current line and exactly the fixed line prefix of the next one, nothing of the payload")
+    sm = splice_model(ctx)
+    if sm is None:
+        raise AnalysisError("R-SPLICE: the V3000 reader has no continuation-line splicer (see R-ORDERING)")
+    sp = sm["func"]
+    conts, prefixes = sorted(sm["conts"]), sorted(sm["prefixes"])
+    if len(conts) != 1 or len(prefixes) != 1:
+        raise AnalysisError(f"R-SPLICE: continuation character {conts} / line prefix {prefixes} of the splicer are not unique")
+    clen, plen = len(conts[0]), len(prefixes[0])
+    ok = sm["drop_end"] == clen
+    res.inst(sp.fq, f"current line loses its last {clen} character(s) ({conts[0]!r})", "ok" if ok else "fail", detail=f"drops {sm['drop_end']}")
+    if not ok:
+        res.fail(Finding("R-SPLICE", sp.module.rel, sp.qualname, norm(sm["concat"]), f"the splice drops {sm['drop_end']} at the end of the continued line, the continuation mark is {conts[0]!r}", line=sm["concat"].lineno))
+    ok = sm["drop_start"] == plen
+    res.inst(sp.fq, f"next line loses its first {plen} characters ({prefixes[0]!r})", "ok" if ok else "fail", detail=f"drops {sm['drop_start']}")
+    if not ok:
+        res.fail(Finding("R-SPLICE", sp.module.rel, sp.qualname, norm(sm["concat"]),
+                         f"the splice drops {sm['drop_start']} at the start of the continuation line instead of the {plen}-character prefix {prefixes[0]!r}: a blank that separates two tokens across the break is lost (or payload characters are), and the two tokens fuse", line=sm["concat"].lineno))
+    return res
 
 
 @rule("R-ORDERING")
